@@ -6,7 +6,7 @@ import ArcSwapModel.Tie.LibIntoInner
 import ArcSwapModel.Tie.LibSwap
 import ArcSwapModel.Tie.LibStore
 import ArcSwapModel.Tie.HybridCas
-import ArcSwapModel.Inv.Alive
+import ArcSwapModel.Inv.Live
 
 /-!
 # C01 — no use-after-free (partial: containers and handles keep their value alive — global theorem;
@@ -195,5 +195,27 @@ theorem C01_replaced_value_alive_during_walk (K N T : Nat) (hK : 0 < K) (cfg : C
     (hop : ((run (State.initial cfg progs) sched).th t).op = .swapPay c out old isStore pp) :
     1 ≤ ((run (State.initial cfg progs) sched).sh.heap old).cnt :=
   replaced_value_counted_during_walk K N T hK cfg progs sched he hf old ha t ht c out isStore pp hop
+
+/-- in every reachable state (no assumption at all) an object with a positive count is alive: the
+    flag is cleared only by the decrement that takes the count to zero -/
+theorem C01_counted_is_alive {st : State} (h : Reachable st) (a : Nat) (hc : 1 ≤ (st.sh.heap a).cnt) :
+    (st.sh.heap a).live = true :=
+  HeapOk.reachable h a hc
+
+/-- the container's own stored copy has not been destroyed -/
+theorem C01_stored_value_not_destroyed (K N T : Nat) (hK : 0 < K) (cfg : Cfg) (progs : Nat → List (String × Op))
+    (sched : List (Nat × Bool)) (he : EnvRun0 K N T (State.initial cfg progs) sched)
+    (hf : (run (State.initial cfg progs) sched).sh.fault = none) (a : Nat) (ha : a ≠ 0)
+    (c : Nat) (hc : c < N) (hcell : (run (State.initial cfg progs) sched).sh.cells c = some a) :
+    ((run (State.initial cfg progs) sched).sh.heap a).live = true :=
+  stored_value_live K N T hK cfg progs sched he hf a ha c hc hcell
+
+/-- what a handle denotes has not been destroyed -/
+theorem C01_handle_value_not_destroyed (K N T : Nat) (hK : 0 < K) (cfg : Cfg) (progs : Nat → List (String × Op))
+    (sched : List (Nat × Bool)) (he : EnvRun0 K N T (State.initial cfg progs) sched)
+    (hf : (run (State.initial cfg progs) sched).sh.fault = none) (a : Nat) (ha : a ≠ 0)
+    (h : Nat) (hh : h < N) (hreg : (run (State.initial cfg progs) sched).sh.hreg h = some a) :
+    ((run (State.initial cfg progs) sched).sh.heap a).live = true :=
+  handle_value_live K N T hK cfg progs sched he hf a ha h hh hreg
 
 end C01
